@@ -196,3 +196,36 @@ func ForeignPlatformAs(enc *errorspb.EncodedError, arch string) int {
 	})
 	return n
 }
+
+// LegacyBarriers rewrites the visible barrier leaves (pre-order, the
+// order of gen.Visible) into what the previous version of the
+// library sent: old type name, plain message.
+func LegacyBarriers(enc *errorspb.EncodedError, texts *[]string) {
+	if w := enc.GetWrapper(); w != nil {
+		LegacyBarriers(&w.Cause, texts)
+		return
+	}
+	if l := enc.GetLeaf(); l != nil {
+		const cur, old = "barriers/*barriers.barrierErr", "barriers/*barriers.barrierError"
+		if strings.HasSuffix(l.Details.ErrorTypeMark.FamilyName, cur) && len(*texts) > 0 {
+			l.Details.ErrorTypeMark.FamilyName = strings.TrimSuffix(l.Details.ErrorTypeMark.FamilyName, cur) + old
+			l.Details.OriginalTypeName = l.Details.ErrorTypeMark.FamilyName
+			l.Message = (*texts)[0]
+			*texts = (*texts)[1:]
+		}
+		for _, c := range l.MultierrorCauses {
+			LegacyBarriers(c, texts)
+		}
+	}
+}
+
+
+// FromLegacyBarrierPeer returns e as received from a process running
+// the previous version of the library, whose barriers have another
+// type name and a plain (not redactable) message: texts are the raw
+// texts of the visible barrier layers in pre-order.
+func FromLegacyBarrierPeer(e error, texts []string) error {
+	enc := Unmarshal(Encode(e))
+	LegacyBarriers(&enc, &texts)
+	return errors.DecodeError(Ctx, enc)
+}
